@@ -86,7 +86,8 @@ def run_case(rng, utrench=False):
             for w in wl:
                 far = far.difference(w.buffer(col.adj_bridge * 1.01 + 1e-6))
             unc = far.difference(unary_union(blocks)) if blocks else far
-            cover_ok = unc.area <= 1e-9
+            # slivers thinner than 2e-6 mm (float32 coordinates of the blocks against the float64 rectangle) are not area
+            cover_ok = unc.area <= 1e-9 or unc.buffer(-1e-6).area <= 1e-12
     lit = ('{| k_blocks := %s; k_remove := %s; k_kept := %s; k_clear_ok := %s; k_inside_ok := %s; k_disjoint_ok := %s; k_cover_ok := %s |}' % (
         clist('(%s, %s)' % (cq(frac(b.bounds[1])), cnat(i)) for i, b in enumerate(raws)) if not nothing else '[]',
         clist(cz(i) for i in (remove or [])),
